@@ -49,6 +49,8 @@ fn main() {
         .method(tiny("empty_json", "EmptyJson", json, "crate::codegen::Empty", "crate::codegen::Empty"))
         .method(tiny("vec_bin", "VecBin", bin, "Vec<u8>", "Vec<u8>"))
         .method(tiny("vec_json", "VecJson", json, "Vec<u8>", "Vec<u8>"))
+        .method(tiny("poison_bin", "PoisonBin", bin, "crate::codegen::Poison", "Vec<u8>"))
+        .method(tiny("poison_json", "PoisonJson", json, "crate::codegen::Poison", "Vec<u8>"))
         .build();
     anemo_build::manual::Builder::new().compile(&[alpha, beta, gamma]);
 }
